@@ -170,12 +170,15 @@ class SequentialCB(Evaluator):
 
         for interaction in interactions:
 
-            context = interaction['context'     ] if has_context else None
-            actions = interaction['actions'     ] if has_actions else None
+            #a field the environment lacks is None for every row of a batch
+            none = None if not batched else Batch.List([None]*len(next(iter(interaction.values()))))
+
+            context = interaction['context'     ] if has_context else none
+            actions = interaction['actions'     ] if has_actions else none
             rewards = interaction['rewards'     ] if has_rewards else None
             off_rwd = interaction['reward'      ] if has_reward  else None
             off_act = interaction['action'      ] if has_action  else None
-            off_pr  = interaction['probability' ] if has_prob    else None
+            off_pr  = interaction['probability' ] if has_prob    else none
 
             lrn_rwds = interaction[learn_target] if learn_type else rewards if lrn_on else None
             val_rwds = interaction[eval_target ] if eval_type  else rewards if val_on else None
